@@ -104,12 +104,16 @@ def run(ctx):
         r0 = pr[p["id"]]
         sizes = [b_["size"] for b_ in r0["ref"]["blocks"]] or [1]
         total = r0["outLen"]
+        hdr = 15 if p["opts"].get("size") else 7
+        bcs4 = 4 if p["opts"]["bcs"] else 0
         pats = [[0, 1], [1], [3], [6], [7], [8], [15], [40], [7, 4, sizes[0]], [sizes[0] - 1], [sizes[0]], [sizes[0] + 1], [4 * total + 1],
                 [sizes[0] + 4], [11, sizes[-1] + 8], [rnd.randrange(1, 50) for _ in range(5)], [rnd.randrange(1, 3 * max(sizes) + 2) for _ in range(3)]]
         if total > 20000:
             pats = [x for x in pats if total // max(1, min(v for v in x if v > 0) if any(x) else 1) <= 2500 or len(x) > 1 and max(x) > 2000]
         if q:
-            pats = rnd.sample(pats, min(6, len(pats)))
+            pats = rnd.sample(pats, min(5, len(pats)))
+        # buffers that end exactly at the end of the header / of the first block / of every block (nothing overflows)
+        pats += [[hdr, 16], [hdr + 4 + sizes[0] + bcs4, 5], [hdr + 4 + sizes[0] + bcs4] + [4 + z + bcs4 for z in sizes[1:]], [hdr + 4 + sizes[0] + bcs4 - 1, 1, 9]]
         for pat in pats:
             if all(v == 0 for v in pat):
                 continue
